@@ -381,14 +381,13 @@ func staleClients(oldText, newText string, newCfg *config.Config) string {
 }
 
 // failedReload: a long-running process reloads old -> new and the LAST reload callback fails (in a sidecar that is the
-// Prometheus reload; the scrape manager has switched by then).  The process does not run the new content - its
-// Prometheus does not - so it must not report the new content's hash: "reported in sync exactly when it runs the
-// coordinator's configuration".  Reporting the old hash is right (the coordinator then sends the content again and
-// every callback runs again); the scrape clients are not compared in that state, it is a partially applied one that
-// the next push repairs.
+// Prometheus reload; the scrape manager has taken the new content by then).  The process does not run the new content
+// - its Prometheus does not - so it must not report the new content's hash: "reported in sync exactly when it runs the
+// coordinator's configuration".  What it reports instead must be what runs: with the old hash, the scrape clients
+// present what a process running the old content presents.  And the same content pushed again is taken.
 func failedReload(oldText, newText, oldHash, newHash string, oldCfg, newCfg *config.Config) string {
-	long := kscrape.New(true, quiet)
-	cm := prom.NewConfigManager()
+	long, freshOld, freshNew := kscrape.New(true, quiet), kscrape.New(true, quiet), kscrape.New(true, quiet)
+	cm, cmO, cmN := prom.NewConfigManager(), prom.NewConfigManager(), prom.NewConfigManager()
 	fail := false
 	cm.AddReloadCallbacks(long.ApplyConfig, func(*prom.ConfigInfo) error {
 		if fail {
@@ -396,15 +395,32 @@ func failedReload(oldText, newText, oldHash, newHash string, oldCfg, newCfg *con
 		}
 		return nil
 	})
-	if cm.ReloadFromRaw([]byte(oldText)) != nil {
+	cmO.AddReloadCallbacks(freshOld.ApplyConfig)
+	cmN.AddReloadCallbacks(freshNew.ApplyConfig)
+	if cm.ReloadFromRaw([]byte(oldText)) != nil || cmO.ReloadFromRaw([]byte(oldText)) != nil || cmN.ReloadFromRaw([]byte(newText)) != nil {
 		return ""
 	}
 	fail = true
 	if cm.ReloadFromRaw([]byte(newText)) == nil {
 		return ""
 	}
+	same := func(a, b *kscrape.Manager, cfg *config.Config) string {
+		for _, sc := range cfg.ScrapeConfigs {
+			// (an oauth2 client asks the identity provider for a token first; there is none to ask here)
+			if sc.HTTPClientConfig.ProxyURL.URL != nil || sc.HTTPClientConfig.OAuth2 != nil {
+				continue
+			}
+			if l, f := presented(a, sc.JobName), presented(b, sc.JobName); l != f {
+				return fmt.Sprintf("the scrape client of job %q presents %s where a process running that content presents %s", sc.JobName, l, f)
+			}
+		}
+		return ""
+	}
 	switch reported := cm.ConfigInfo().ConfigHash; reported {
 	case oldHash:
+		if d := same(long, freshOld, oldCfg); d != "" {
+			return "after a reload whose last callback failed the process reports the hash of the old content, but " + d
+		}
 	case newHash:
 		return "after a reload whose last callback (the reload of Prometheus) failed the process reports the hash of the new content, which its Prometheus does not run: it looks in sync and is never sent the content again"
 	default:
@@ -418,23 +434,9 @@ func failedReload(oldText, newText, oldHash, newHash string, oldCfg, newCfg *con
 	if h := cm.ConfigInfo().ConfigHash; h != newHash {
 		return fmt.Sprintf("after the content was pushed again and every callback succeeded the process reports %s, not the new content's hash %s", h, newHash)
 	}
-	for _, sc := range newCfg.ScrapeConfigs {
-		// (an oauth2 client asks the identity provider for a token first; there is none to ask here)
-		if sc.HTTPClientConfig.ProxyURL.URL != nil || sc.HTTPClientConfig.OAuth2 != nil {
-			continue
-		}
-		fresh := kscrape.New(true, quiet)
-		cmN := prom.NewConfigManager()
-		cmN.AddReloadCallbacks(fresh.ApplyConfig)
-		if cmN.ReloadFromRaw([]byte(newText)) != nil {
-			return ""
-		}
-		if l, f := presented(long, sc.JobName), presented(fresh, sc.JobName); l != f {
-			return fmt.Sprintf("after the content was pushed again the scrape client of job %q presents %s where a process running that content presents %s", sc.JobName, l, f)
-		}
-		break
+	if d := same(long, freshNew, newCfg); d != "" {
+		return "after the content was pushed again and every callback succeeded " + d
 	}
-	_ = oldCfg
 	return ""
 }
 
